@@ -55,14 +55,16 @@ def junction_local(eos, vw, vp, Tp0, Tm0):
     return Tp, Tm, vm_behind(eos, vw, Tm)
 
 
-def state_of(eos, vw, vp, Tp0, Tm0):
+def state_of(eos, vw, vp, Tp0, Tm0, rtol=1e-9):
     """(Tp, Tm, vm, Tn_ahead, m) of the junction solution at (vw, v+) near the guess, with the
-    temperature ahead of the shock from the oracle's own integration. None if no local solution."""
+    temperature ahead of the shock from the oracle's own integration. None if no local solution.
+    rtol = local error control of the 8th-order integrator (1e-9 reproduces the 1e-11 result to
+    ~1e-14 relative on the lattice; 1e-11 costs up to 10 s per call at slow walls)."""
     j = junction_local(eos, vw, vp, Tp0, Tm0)
     if j is None:
         return None
     Tp, Tm, vm = j
-    sh = OH.shock_Tn(eos, vw, vp, Tp, rtol=1e-11)
+    sh = OH.shock_Tn(eos, vw, vp, Tp, rtol=rtol)
     if sh["kind"] == "incomplete":
         return None
     return dict(vp=float(vp), vm=vm, Tp=Tp, Tm=Tm, Tn=float(sh["Tn"]), m=mismatch(vp, vm, Tp, Tm), kind=sh["kind"])
